@@ -55,7 +55,7 @@ pub struct DevCore {
     pub accepted: u64,
     pub status: u32,
     pub legacy: bool,
-    pub q: Vec<QState>,
+    pub q: std::collections::BTreeMap<u16, QState>,
     pub default_max: u32,
     /// Forced answer of `queue_used` (model transport only).
     pub force_used: bool,
@@ -78,7 +78,7 @@ impl DevCore {
             accepted: 0,
             status: 0,
             legacy: false,
-            q: Vec::new(),
+            q: Default::default(),
             default_max: 32768,
             force_used: false,
             config: Vec::new(),
@@ -99,14 +99,8 @@ impl DevCore {
     }
 
     pub fn queue(&mut self, i: u16) -> &mut QState {
-        let i = i as usize;
-        while self.q.len() <= i {
-            self.q.push(QState {
-                max: self.default_max,
-                ..Default::default()
-            });
-        }
-        &mut self.q[i]
+        let max = self.default_max;
+        self.q.entry(i).or_insert_with(|| QState { max, ..Default::default() })
     }
 
     pub fn reset(&mut self) {
@@ -114,7 +108,7 @@ impl DevCore {
         self.accepted = 0;
         self.resets += 1;
         self.isr = 0;
-        for q in &mut self.q {
+        for q in self.q.values_mut() {
             q.ready = false;
             q.size = 0;
             q.desc = 0;
@@ -138,12 +132,12 @@ impl DevCore {
     }
 
     /// Index of a queue on which the device is live and whose rings intersect the range.
-    pub fn live_queue_in(&self, paddr: u64, len: u64) -> Option<usize> {
+    pub fn live_queue_in(&self, paddr: u64, len: u64) -> Option<u16> {
         if !self.driver_ok() {
             return None;
         }
         let end = paddr as u128 + len as u128;
-        for (i, q) in self.q.iter().enumerate() {
+        for (&i, q) in self.q.iter() {
             if !q.ready {
                 continue;
             }
